@@ -10,3 +10,15 @@ package x509
 //@ func (CertificateFingerprint).Hex
 //@   modifies nothing
 //@   terminates
+
+// ---------------------------------------------------------------- round 2 (property C12)
+// TimeInValidityPeriod (called by verifier.(*Verifier).VerifyWithContext): documented "returns
+// true if NotBefore < t < NotAfter". tlt / hasMono are the global preds of
+// /verif/extern/certpool.contracts (the assumed meaning of (time.Time).Before / After: the order
+// of instants unless BOTH operands carry a monotonic clock reading). Validity dates come from
+// parsing or time.Date and carry none.
+//@ func (*Certificate).TimeInValidityPeriod
+//@   requires c != nil
+//@   ensures !hasMono(c.NotBefore) && !hasMono(c.NotAfter) ==> (result <==> tlt(c.NotBefore, t) && tlt(t, c.NotAfter))
+//@   modifies nothing
+//@   terminates
